@@ -22,7 +22,7 @@ import subprocess
 import vlib
 
 CRLF = b"\r\n"
-DRIFT_HASH = "7ae7b00ba233"  # normalised text of the anchored functions when the model was written
+DRIFT_HASH = "43cc88153eff"  # normalised text of the anchored functions when the model was written
 
 
 # ------------------------------------------------------------------ helpers
@@ -616,7 +616,7 @@ def run(ctx):
                 "handshakes: scripted servers - every reply class per step (OK, OK <guid>, OK followed by two spaces / a tab / nothing, OKAY, OKfoo, lower case, REJECTED, ERROR, DATA, AGREE_UNIX_FD[ extra], AGREE_UNIX_FDX, garbage, non-UTF-8, empty, bare "
                 "CR/LF, lines of 509..1500 bytes), lines of 16382..16385, 16894..16896, 20000 and 100000 bytes around the 16 KiB limit (delivered in lockstep - the server writes a chunk only after SIOCOUTQ shows the previous one was read; for 512-byte chunks chunk = read and the boundary is exact -, byte-wise at the end, and as one large write; whenever the read grouping is up to the kernel (short chunks, one large write) lines of 16384..16894 bytes are judged by the predicate only), servers that stream bytes without a line ending until the client closes (result class compared strictly; the bytes the server got rid of are only required to stay below 2*(16384+512) plus 4 MiB of socket-buffer slack, the kernel buffers on behalf of the client), every 2-cut of each reply line, byte-wise and random k-cuts, close after k reply bytes for "
                 "every k, close after k client bytes for every k, two lines per chunk, unsolicited greeting, message after BEGIN, random "
-                "compositions; on path and abstract sockets; under the own uid and setuid children; non-trivial = the server sends at least one byte; "
+                "compositions; child processes with the default SIGPIPE disposition against servers closing at accept / after 1 / 5 client bytes; on path and abstract sockets; under the own uid and setuid children; non-trivial = the server sends at least one byte; "
                 "distinct = distinct (uid, flag, script) / distinct byte strings")
     ctx.trusted = ["Coq 8.16.1 kernel (coqc), no native_compute", "extraction with ExtrOcamlBasic only, ocamlfind ocamlopt 4.13.1",
                    "ocaml/c17/driver.ml and harness/src/bin/c17.rs (I/O wrappers; the harness contains the scripted server)",
@@ -627,9 +627,6 @@ def run(ctx):
                        "wrote, 0 after the peer closed; writes fail once the peer has shut down (modelled in Conn/Auth.v sock_write/sock_read)",
                        "the environment variable and paths are byte strings without NUL; PathBuf::exists = a successful stat()",
                        "sockaddr_un.sun_path has 108 bytes (Linux); usize is 64 bit",
-                       "SIGPIPE is ignored in the connecting process (as the Rust runtime does for a Rust main, and as the harness runs): "
-                       "do_auth sends the NUL byte with sendmsg without MSG_NOSIGNAL, so in a process with the default disposition a server "
-                       "that closes at accept can kill the client instead of connect_to_bus returning an error (c17 --sigpipe-demo N shows it)",
                        "connect(2) itself succeeds (a listener exists); a server that neither answers nor closes leaves the client waiting in read() - "
                        "connect_to_bus has no timeout (model result Blocked, theorem C17_auth_result)"]
     ctx.try_proof()
@@ -768,6 +765,42 @@ def _run(ctx, thorough, exe, drv, work):
             ctx.disagreements_checked += len(bad)
             tie(ctx, "correspondence: utf8_valid (model of std::str::from_utf8) differs from the real function",
                            "; ".join("%s impl=%s model=%s" % (c.hex(), a, b) for c, a, b in bad[:10]))
+
+    # ---------------------------------------------------------------- SIGPIPE: a client that has not ignored it
+    # child processes with the default disposition connect to a server that closes at accept / after k client bytes;
+    # every child must come back with an error (the model: the NUL write or the next read fails -> Err), none may be
+    # killed by a signal. The server thread has real-time priority on the child's CPU, so its close lands between the
+    # child's connect() and first sendmsg() in nearly every child (measured 94-100 % without MSG_NOSIGNAL).
+    nsig = 600 if thorough else 80
+    slines = ["s %d 0" % nsig, "s %d 1" % (nsig // 4), "s %d 5" % (nsig // 4)]
+    rc_m, out_m, _ = run_proc([drv], ["h %d 0 c" % os.getuid(), "h %d 0 k;c" % os.getuid()])
+    if rc_m != 0 or [l.split(" ")[0] for l in out_m] != ["err", "err"]:
+        tie(ctx, "model does not return an error for a server that closes at accept / after the first line", str(out_m))
+    try:
+        rc_i, out_i, err_i = run_proc([exe], slines, cwd=work, env=env, timeout=600)
+    except subprocess.TimeoutExpired:
+        rc_i, out_i, err_i = 1, [], "timeout"
+    if rc_i != 0 or len(out_i) != len(slines) + 1:
+        tie(ctx, "harness c17 crashed or produced short output on the SIGPIPE stream", (err_i or "")[-1000:])
+    else:
+        for sl, li in zip(slines, out_i[1:]):
+            d = dict(x.split("=") for x in li.split(" ")[1:])
+            n = int(sl.split(" ")[1])
+            ctx.evaluations += n
+            ctx.extra_distinct += 1
+            ctx.count("sigpipe:children", n)
+            ctx.count("sigpipe:returned_error", int(d["err"]))
+            data = {"kind": "sig", "line": sl, "impl": li}
+            if int(d["killed"]) > 0:
+                ctx.disagreements_checked += 1
+                ctx.violation("a client with the default SIGPIPE disposition is killed by a signal instead of connect_to_bus returning an error "
+                              "when the server closes (%s of %d children)" % (d["killed"], n), data)
+            elif int(d["ok"]) > 0:
+                ctx.disagreements_checked += 1
+                ctx.violation("success reported although the server closed without answering", data)
+            elif int(d["other"]) > 0 or int(d["err"]) != n:
+                ctx.disagreements_checked += 1
+                tie(ctx, "correspondence: a child of the SIGPIPE stream ended in an unexpected way", str(data))
 
     # ---------------------------------------------------------------- handshakes
     r = ctx.sub_rng("hs")
@@ -922,6 +955,12 @@ def replay(ctx, body):
             print("script:", data["line"], "uid", uid)
             print("impl :", out_i[1])
             print("model:", out_m[0])
+        elif data.get("kind") == "sig":
+            _, out_i, _ = run_proc([exe], [data["line"]], cwd=work, env=env)
+            d = dict(x.split("=") for x in out_i[1].split(" ")[1:])
+            why = ("%s children killed by a signal" % d["killed"]) if int(d["killed"]) > 0 else None
+            print("line:", data["line"])
+            print("impl:", out_i[1])
         else:
             print("nothing to replay:", body.get("what"))
             return 2
